@@ -33,7 +33,6 @@ _CONTROL_STRUCTURES = (
     ast.Try,
     ast.TryStar,
     ast.Match,
-    ast.match_case,
 )
 
 
